@@ -144,6 +144,30 @@ def unsupName : UnsupTest → String
   | .wrapt => "wrapt" | .lruCache => "lruCache" | .constructor => "constructor"
   | .knownModule => "knownModule" | .tfPlugin => "tfPlugin" | .unresolved => "unresolved"
 
+/-- `(slot <callable> (objKey funcKey) …)`: per level (outermost first) the key of the object itself and the key of its
+`__func__` (equal unless the level is a bound method); the extracted cache rule picks one. -/
+def slot? : Sexp → Option (Callable String × List Nat)
+  | .list (.atom "slot" :: c :: keys) => do
+      let c ← callable? c
+      let ks ← keys.mapM fun
+        | .list [a, b] => do
+            let a ← a.nat?; let b ← b.nat?
+            pure (if cacheKeyDropsReceiver then b else a)
+        | _ => none
+      pure (c, ks)
+  | _ => none
+
+def hcall? : Sexp → Option (HCall String)
+  | .list [slot, env, okey, o, .list args, kw] => do
+      pure ⟨← slot.nat?, ← env? env, ← okey.nat?, ← opts? o, ← strs? args, ← kw? kw⟩
+  | _ => none
+
+/-- two slots share their base cache key but differ in a context-free exclusion (for some options of the history) -/
+def sharedDisagree (cs : List (Callable String × List Nat)) (os : List Opts) : Bool :=
+  cs.any fun (c1, k1) => cs.any fun (c2, k2) =>
+    k1.getLast? == k2.getLast? && k1.getLast?.isSome &&
+    os.any fun o => stableExcludedB c1.baseDesc o != stableExcludedB c2.baseDesc o
+
 def run (f : Option String) : String := f.getD "bad-args"
 
 def handlers : List (String × (List Sexp → String)) := [
@@ -169,13 +193,23 @@ def handlers : List (String × (List Sexp → String)) := [
         .list (.atom "path" :: (path env o c).map actionSexp),
         .list [.atom "class", Sexp.ofBool c.foreignSelf, Sexp.ofBool c.uncacheableBase, Sexp.ofBool c.partialsNatural],
         .list [.atom "again", effectSexp r2.1]]))),
+  ("c13.history", fun a => run do
+      let [.list slots, .list calls] := a | none
+      let cs ← slots.mapM slot?
+      let hs ← calls.mapM hcall?
+      let effs := runHistory cs [] hs
+      pure (toString (Sexp.list [
+        .list (.atom "effects" :: effs.map effectSexp),
+        .list [.atom "class", Sexp.ofBool (sharedDisagree cs (hs.map (·.opts))), Sexp.ofBool (cs.any fun (c, _) => c.foreignSelf),
+               Sexp.ofBool (cs.any fun (c, _) => c.uncacheableBase)]]))),
   ("c13.tables", fun _ => toString (Sexp.list [
       .list (.atom "rules" :: conversionRules.map fun r => .list [.atom (ruleKindName r.kind), Sexp.ofStrs r.pfx]),
       .list (.atom "chain" :: chain.map fun s => .list [.atom (checkName s.check), Sexp.ofBool s.updateCache]),
       .list (.atom "unsupported" :: unsupportedTests.map fun s => .atom (unsupName s.test)),
       .list (.atom "knownModules" :: knownLoadedModules.map .atom),
       .list (.atom "specials" :: builtinSpecials.map .atom),
-      .list [.atom "strictEnvVar", .atom strictEnvVar]]))
+      .list [.atom "strictEnvVar", .atom strictEnvVar],
+      .list [.atom "cacheKeyDropsReceiver", Sexp.ofBool cacheKeyDropsReceiver]]))
 ]
 
 end Malt.Drv.C13
